@@ -42,3 +42,176 @@ func init() {
 		rule("M-DISPATCH", ruleDispatch).
 		rule("commit-before-ack", ruleExecute)
 }
+
+var allCmdTypes = []string{"UpdatePromiseCommand", "CreatePromiseCommand", "UpdateScheduleCommand", "CreateScheduleCommand",
+	"CreateCallbackCommand", "CompleteTasksCommand", "CreateTasksCommand", "DeleteCallbacksCommand", "CreateTaskCommand",
+	"CreatePromiseAndTaskCommand", "UpdateTaskCommand", "AcquireLockCommand", "ReleaseLockCommand", "HeartbeatLocksCommand",
+	"TimeoutLocksCommand", "HeartbeatTasksCommand", "ReadPromisesCommand", "ReadSchedulesCommand", "ReadTasksCommand",
+	"ReadEnqueueableTasksCommand", "SearchPromisesCommand", "SearchSchedulesCommand", "DeleteScheduleCommand"}
+
+var groupOwners = map[string][]string{
+	"UpdatePromise":        {"completePromise"},
+	"CompleteTasks":        {"completePromise"},
+	"CreateTasks":          {"completePromise"},
+	"DeleteCallbacks":      {"completePromise"},
+	"CreatePromise":        {"createPromise"},
+	"CreatePromiseAndTask": {"createPromise"},
+	"UpdateSchedule":       {"bg:SchedulePromises"},
+}
+
+
+var promiseSchema = map[string][]string{"promises": {"id:text:unique", "state:int:default=1", "sort_id:int:auto", "timeout:int"}}
+var taskSchema = map[string][]string{"tasks": {"id:text:unique", "state:int:default=1", "counter:int:default=1", "attempt:int:default=0", "sort_id:int:auto"}}
+var lockSchema = map[string][]string{"locks": {"resource_id:text:unique"}}
+var scheduleSchema = map[string][]string{"schedules": {"id:text:unique", "sort_id:int:auto"}}
+var callbackSchema = map[string][]string{"callbacks": {"id:text:unique"}}
+
+func mergeSchemas(ms ...map[string][]string) map[string][]string {
+	out := map[string][]string{}
+	for _, m := range ms {
+		for k, v := range m {
+			out[k] = v
+		}
+	}
+	return out
+}
+
+var objAll = []string{"Promise", "Promise.patch", "Task", "Task.patch", "Lock", "Schedule", "Callback", "SenderSubmission", "SearchPromisesRequest", "SearchSchedulesRequest"}
+
+func init() {
+	regProp("C01",
+		[]string{
+			"table promises is written only by the dispatched insert (creation half only, ON CONFLICT DO NOTHING, state from DEFAULT 1) and the dispatched update (completion half only, guard id = · AND state = 1) in both backends; no statement deletes or rewrites a promise row (R1/R2 + table ownership)",
+			"every UpdatePromise command is one of three templates (caller completion while now < timeout; forced time-out; sweep) and is constructed only inside the completion group; every CreatePromise command is the request's or the schedule's (R9, R5)",
+			"every promise object put into a response is the stored record, or the record with exactly the completion half of the command that was written (R6 objects); when the guarded write affects 0 rows the coroutine retries (R6 cas)",
+			"all SQL is constant text run on the batch's transaction, no other package uses database/sql (R3)",
+		},
+		[]string{"that a guarded UPDATE/INSERT is atomic in the engine", "agreement of responses built from different reads (follows by induction from the above; argued in DESIGN.md, not machine-checked)", "crash points (C06)"}).
+		rule("R1R2-sql-spec", ruleSQLSpec(kindsOf("promises"))).
+		rule("R1-table-writers", ruleTableWriters("promises", false)).
+		rule("schema", ruleSchema(promiseSchema)).
+		rule("R3-sql-origin", ruleSQLOrigin).
+		rule("R9-command-provenance", ruleCmdProvenance("UpdatePromiseCommand", "CreatePromiseCommand")).
+		rule("R5-groups", ruleWhoConstructs(groupOwners)).
+		rule("R5-completion-group", ruleCompletionGroup).
+		rule("R6-object-provenance", ruleObjProvenance("Promise", "Promise.patch")).
+		rule("R6-cas", ruleCAS("ReadPromise", "CreatePromise", "CreatePromiseAndTask", "CompletePromise", "SearchPromises", "CreateCallback", "CreateSubscription"))
+
+	regProp("C02",
+		[]string{
+			"mechanism only: every guarded write of every request coroutine has its row count examined, and on the 0-row path the coroutine retries or answers without data from the earlier read (R6)",
+			"coroutine code is confined to the single-threaded kernel: no go statement, channel operation, package-level state or sync primitive; the only clock is c.Time() (R14/R8)",
+			"each command's guard re-validates what the decision read (R1/R2 on all statements) and each command literal is built from request/record/clock as specified (R9)",
+		},
+		[]string{"linearizability of histories (no history is explored)", "batch orders, fault sequences, kernel configurations", "correctness of the decisions themselves (C03, C04, C07, C09)"}).
+		rule("R6-cas", ruleCAS()).
+		rule("R14-coroutine-confinement", ruleCoroutineConfinement).
+		rule("R1R2-sql-spec", ruleSQLSpec(allKinds)).
+		rule("R9-command-provenance", ruleCmdProvenance(allCmdTypes...))
+
+	regProp("C04",
+		[]string{
+			"every forced time-out command has state GetTimedoutState(record), empty value, no key, CompletedOn = record.Timeout and is governed by state == Pending ∧ timeout <= now (non-strict); the caller's state is installed only under now < timeout (R9 + R8)",
+			"the sweep selects state = 1 AND timeout <= · with the operand bound to a command field whose provenance is c.Time() (R1/R2 + R9)",
+			"responses after a lazy time-out show the written completion half (CompletedOn = &written.CompletedOn); the only clock in coroutine code is c.Time() (R6 objects, R14)",
+		},
+		[]string{"tick placement and the three-way race (reduced to C01's write-once)", "a fresh create with a timeout already in the past answers 201 pending (see DESIGN.md §5 C04: read as outside the statement)"}).
+		rule("R9-command-provenance", ruleCmdProvenance("UpdatePromiseCommand", "ReadPromisesCommand")).
+		rule("R1R2-sql-spec", ruleSQLSpec(kindList("ReadPromises", "UpdatePromise"))).
+		rule("R6-object-provenance", ruleObjProvenance("Promise", "Promise.patch")).
+		rule("R6-cas", ruleCAS("ReadPromise", "CreatePromise", "CreatePromiseAndTask", "CompletePromise", "SearchPromises")).
+		rule("R14-coroutine-confinement", ruleCoroutineConfinement)
+
+	regProp("C05",
+		[]string{
+			"the completion transaction is one Transaction [UpdatePromise, CompleteTasks, CreateTasks, DeleteCallbacks, extra…], all keyed by the same id, tasks created before registrations are deleted; these kinds are constructed nowhere else (R5, R9)",
+			"CreateTasks inserts one task per registration of that promise; DeleteCallbacks removes exactly those; the callback insert is guarded by EXISTS(pending promise) AND NOT EXISTS(same id), operands bound as specified (R1/R2)",
+			"a callback is reported only when the guarded insert affected a row; on 0 rows the answer must not reuse the stale read (R6: finding F12)",
+			"derived ids: callback id = f(root, leaf), subscription id = f(promise, id), embedded raw; injectivity of the format (R15: finding F30)",
+		},
+		[]string{"both orders inside one store batch (engine)", "crash between steps (C06)"}).
+		rule("R5-completion-group", ruleCompletionGroup).
+		rule("R5-groups", ruleWhoConstructs(groupOwners)).
+		rule("R9-command-provenance", ruleCmdProvenance("CreateCallbackCommand", "CompleteTasksCommand", "CreateTasksCommand", "DeleteCallbacksCommand", "UpdatePromiseCommand")).
+		rule("R1R2-sql-spec", ruleSQLSpec(kindList("CreateCallback", "DeleteCallbacks", "CreateTasks", "UpdatePromise", "CompleteTasks"))).
+		rule("R1-table-writers", ruleTableWriters("callbacks", true)).
+		rule("schema", ruleSchema(callbackSchema)).
+		rule("R6-object-provenance", ruleObjProvenance("Callback")).
+		rule("R6-cas", ruleCAS("CreateCallback", "CreateSubscription")).
+		rule("R15-derived-ids", ruleDerivedIds)
+
+	regProp("C07",
+		[]string{
+			"task update guard id = · AND state & mask(CurrentStates) != 0 AND counter = CurrentCounter; heartbeat touches only process_id = · AND state = 4; complete-by-root only states (1,2,4); sweep state & · != 0 AND (expires_at <= · OR timeout <= ·) (R1/R2)",
+			"the 8 UpdateTask literals match their templates: only claim sets Claimed (from {Init,Enqueued}, same counter, lease now+ttl, requester as holder); complete from {Claimed}; lease sweep bumps the counter by one; no literal re-activates a finished task or lowers the counter (R9 + R8)",
+			"a new claimed task row can only be born through INSERT … ON CONFLICT(id) DO NOTHING (never re-claims an existing task)",
+			"0 rows ⇒ retry in claim and complete; the response shows what was written (R6)",
+		},
+		[]string{"interleavings of several workers", "ttl arithmetic overflow"}).
+		rule("R1R2-sql-spec", ruleSQLSpec(kindsOf("tasks"))).
+		rule("schema", ruleSchema(taskSchema)).
+		rule("R9-command-provenance", ruleCmdProvenance("UpdateTaskCommand", "CreateTaskCommand", "HeartbeatTasksCommand", "ReadTasksCommand")).
+		rule("R6-object-provenance", ruleObjProvenance("Task.patch")).
+		rule("R6-cas", ruleCAS("ClaimTask", "CompleteTask", "HeartbeatTasks")).
+		rule("R14-coroutine-confinement", ruleCoroutineConfinement)
+
+	regProp("C08",
+		[]string{
+			"a routed promise and its task are ONE command (CreatePromiseAndTask) of one transaction; the task insert happens iff the promise insert affected a row (both backends); creation kinds are constructed only in the creation helper (R5, R1)",
+			"the store write must not be reachable after a failed router submission (finding F13)",
+			"CompleteTasks(root = the completed id) is part of the completion group (R5/R9)",
+			"dispatchable = state = 1 AND NOT EXISTS(sibling of the same root in (2,4)), one per root, LIMIT batch (R1/R2)",
+			"the four dispatch-cycle UpdateTask literals and the dispatched message match their templates: Enqueued only after err == nil ∧ Success, retry counts the attempt, notify finished after the hand-off, all guarded {Init} + counter; hrefs from exactly (task id, counter) (R9, objects)",
+		},
+		[]string{"interleavings of dispatch with claims", "the sender's delivery itself"}).
+		rule("R5-creation-group", ruleCreationGroup).
+		rule("R5-completion-group", ruleCompletionGroup).
+		rule("R5-groups", ruleWhoConstructs(groupOwners)).
+		rule("router-error-stops", ruleRouterErrorStops).
+		rule("R1R2-sql-spec", ruleSQLSpec(kindList("CreatePromiseAndTask", "CreatePromise", "CreateTask", "ReadEnqueueableTasks", "CompleteTasks", "UpdateTask"))).
+		rule("R9-command-provenance", ruleCmdProvenance("CreateTaskCommand", "CreatePromiseAndTaskCommand", "UpdateTaskCommand", "CompleteTasksCommand", "ReadEnqueueableTasksCommand")).
+		rule("R6-object-provenance", ruleObjProvenance("Task", "SenderSubmission"))
+
+	regProp("C09",
+		[]string{
+			"resource_id is unique; acquire = insert … ON CONFLICT(resource_id) DO UPDATE SET process_id, ttl, expires_at (never execution_id) WHERE execution_id = excluded.execution_id; release deletes only resource_id = · AND execution_id = ·; heartbeat is an UPDATE of expires_at keyed by process_id; sweep deletes only expires_at <= · (R1/R2, both backends)",
+			"ExpiresAt = c.Time() + ttl; heartbeat and sweep operands are c.Time() (R9/R8)",
+			"0 rows ⇒ the answer does not claim the lock; the lock shown is the one written (R6)",
+		},
+		[]string{"interleavings", "clock positions beyond comparator strictness"}).
+		rule("R1R2-sql-spec", ruleSQLSpec(kindsOf("locks"))).
+		rule("R1-table-writers", ruleTableWriters("locks", true)).
+		rule("schema", ruleSchema(lockSchema)).
+		rule("R9-command-provenance", ruleCmdProvenance("AcquireLockCommand", "ReleaseLockCommand", "HeartbeatLocksCommand", "TimeoutLocksCommand")).
+		rule("R6-object-provenance", ruleObjProvenance("Lock")).
+		rule("R6-cas", ruleCAS("AcquireLock", "ReleaseLock", "HeartbeatLocks"))
+
+	regProp("C10",
+		[]string{
+			"due = next_run_time <= c.Time(), ordered next_run_time ASC, sort_id ASC, LIMIT batch; advance = SET last_run_time = next_run_time, next_run_time = · WHERE id = · AND next_run_time = · with operands (NextRunTime, Id, LastRunTime) (R1/R2)",
+			"next = Next(occurrence just fired, cron); promise id from the template with (schedule id, occurrence); timeout = occurrence + configured timeout; configured param and tags; create: first occurrence after c.Time() (R9)",
+			"the advance is an extra command of the promise creation: one transaction (R5)",
+		},
+		[]string{"the cron library", "catch-up counts", "crashes mid-cycle (C06)", "template engine behaviour on client templates (findings F8, F10, F17: see C13/C20)"}).
+		rule("R1R2-sql-spec", ruleSQLSpec(kindsOf("schedules"))).
+		rule("schema", ruleSchema(scheduleSchema)).
+		rule("R9-command-provenance", ruleCmdProvenance("CreatePromiseCommand", "UpdateScheduleCommand", "CreateScheduleCommand", "ReadSchedulesCommand", "DeleteScheduleCommand")).
+		rule("R5-creation-group", ruleCreationGroup).
+		rule("R5-groups", ruleWhoConstructs(groupOwners)).
+		rule("R6-object-provenance", ruleObjProvenance("Schedule")).
+		rule("R6-cas", ruleCAS("CreateSchedule", "DeleteSchedule"))
+
+	regProp("C14",
+		[]string{
+			"search statements: (· IS NULL OR sort_id < ·) strict with both operands the request's SortId, id LIKE pattern(Id), state mask, every tag, ORDER BY sort_id DESC, LIMIT ← Limit; sort_id unique and auto-increment (R1/R2, schema)",
+			"cursor present iff RowsReturned == Limit; Next repeats Id/States/Tags/Limit with SortId = &LastSortId; LastSortId is the sort_id of the last scanned row (objects, provenance)",
+			"lazily timed-out hits ⇒ the search runs again (R6)",
+		},
+		[]string{"completeness across pages under concurrent writes (follows from sort_id monotonicity, engine-trusted)", "LIKE wildcard/case semantics and JSON path syntax (finding F15)"}).
+		rule("R1R2-sql-spec", ruleSQLSpec(kindList("SearchPromises", "SearchSchedules"))).
+		rule("schema", ruleSchema(mergeSchemas(promiseSchema, scheduleSchema))).
+		rule("result-provenance", ruleResults(kindList("SearchPromises", "SearchSchedules"))).
+		rule("R9-command-provenance", ruleCmdProvenance("SearchPromisesCommand", "SearchSchedulesCommand")).
+		rule("R6-object-provenance", ruleObjProvenance("SearchPromisesRequest", "SearchSchedulesRequest")).
+		rule("R6-cas", ruleCAS("SearchPromises"))
+}
